@@ -27,6 +27,8 @@ def inj_label(inject, ops_by_idx):
         return f"fault:{inject[2]}@{ops_by_idx.get(inject[1], '?')}"
     if inject[0] == "fault+cancel":
         return f"fault:{inject[2]}@{ops_by_idx.get(inject[1], '?')}+cancel:native:cleanup"
+    if inject[0] == "trace-raise":
+        return f"trace-raise:{inject[1]}"
     return f"cancel:{inject[1]}"
 
 
@@ -89,6 +91,12 @@ def run_enumeration(case, judge, counters_init):
             v(f"{TYPE_CLASS[ctype]}|baseline-victim-failed|none|baseline", f"baseline victim outcome {vo!r}", {"case": case})
             return
         faults, cancels = plan_injections(flavor, K, ops, case["tier"], rng)
+        # the victim's trace callback raises at its n-th '.started' / '.complete' event (all flavours, also sync)
+        n_ev = len((res["sc"].phase.get("victim") or {}).get("hist", []))
+        tr = [("trace-raise", suf, n) for suf in (".started", ".complete") for n in range(1, n_ev + 1)]
+        if case["tier"] == "quick" and len(tr) > 12:
+            tr = sorted(rng.sample(tr, 12))
+        cancels = cancels + tr
         cnt["yields_enumerated"] += K
         cnt["ops_enumerated"] += len(ops)
         sample.update({"case": case, "victim_suspension_points": K, "network_ops": [o[1] for o in ops][:40],
@@ -101,6 +109,9 @@ def run_enumeration(case, judge, counters_init):
             if inject[0] == "fault":
                 cnt["fault_runs"] += 1
                 cnt["faults_fired"] += 1 if res["fired"] else 0
+            elif inject[0] == "trace-raise":
+                cnt["trace_raise_runs"] = cnt.get("trace_raise_runs", 0) + 1
+                cnt["trace_raise_fired"] = cnt.get("trace_raise_fired", 0) + (1 if res["fired"] else 0)
             elif inject[0] == "fault+cancel":
                 cnt["double_runs"] = cnt.get("double_runs", 0) + 1
                 cnt["double_both_fired"] = cnt.get("double_both_fired", 0) + (1 if res["fired"] and res.get("fault_fired") else 0)
